@@ -8,7 +8,8 @@
    lifted to every history (C01_reachable).  The older `…_partial` statements are kept: other
    properties' files refer to them. *)
 From Coq Require Import ZArith List.
-From BS Require Import Word BumpSpec ChunkSpec Arena ArenaInv ArenaExt ArenaInv2 ArenaSplit.
+From BS Require Import Word BumpSpec ChunkSpec Arena ArenaInv ArenaExt ArenaInv2 ArenaSplit LibRefine AllocRefine.
+From BS.gen Require AllocSites.
 Import ListNotations.
 Open Scope Z_scope.
 
@@ -121,6 +122,39 @@ Theorem C01_split_other_part_not_last :
   (up c = false -> is_last c s (ptr + mid) (size - mid) = true -> is_last c s ptr size = false).
 Proof. exact split_other_part_not_last. Qed.
 
+(* the position arithmetic of the CURRENT allocator_impl.rs / set_pos_addr_and_align (cut out by tools/allocsites.py, translated into gen/AllocSites.v on every run) is the arena model's (AllocRefine.v) *)
+Theorem C01_source_is_last_is_the_models :
+  forall ptr size pos, 0 <= ptr -> 0 <= size -> ptr + size < W ->
+  AllocSites.is_last_up ptr size pos = Ok (ptr + size =? pos) /\
+  AllocSites.is_last_down ptr pos = Ok (ptr =? pos).
+Proof. exact is_last_refines. Qed.
+
+Theorem C01_source_dealloc_position_is_the_models :
+  forall upb m ptr size, valid_min_align m -> 0 <= ptr -> 0 <= size -> ptr + size + m - 1 < W ->
+  (AllocSites.dealloc_up_target ptr = Ok ptr /\ AllocSites.dealloc_down_target ptr size = Ok (ptr + size)) /\
+  AllocSites.set_pos_and_align_addr upb m (if upb then ptr else ptr + size)
+  = Ok (align_posZ upb m (if upb then ptr else ptr + size)).
+Proof. exact dealloc_target_refines. Qed.
+
+Theorem C01_source_grow_up_is_the_models :
+  forall chunk_end ptr nsize m, valid_min_align m -> 0 <= ptr <= chunk_end -> 0 <= nsize -> ptr + nsize + m - 1 < W ->
+  AllocSites.grow_up_remaining chunk_end ptr = Ok (chunk_end - ptr) /\
+  AllocSites.grow_up_fits nsize (chunk_end - ptr) = Ok (nsize <=? chunk_end - ptr) /\
+  AllocSites.grow_up_new_pos ptr nsize m = Ok (up_alignZ (ptr + nsize) m).
+Proof. exact grow_up_refines. Qed.
+
+Theorem C01_source_grow_down_is_the_models :
+  forall ptr osize nsize nalign m very_start,
+  valid_min_align m -> pow2 nalign -> nalign < W -> 0 <= ptr < W -> 0 <= osize <= nsize ->
+  let new_addr := down_alignZ (Z.max (ptr - (nsize - osize)) 0) (Z.max nalign m) in
+  new_addr + nsize < W ->
+  AllocSites.grow_down_additional nsize osize = Ok (nsize - osize) /\
+  AllocSites.grow_down_new_addr ptr (nsize - osize) nalign m = Ok new_addr /\
+  AllocSites.grow_down_fits new_addr very_start = Ok (very_start <=? new_addr) /\
+  AllocSites.grow_down_new_addr_end new_addr nsize = Ok (new_addr + nsize) /\
+  AllocSites.grow_down_nonoverlapping (new_addr + nsize) ptr = Ok (new_addr + nsize <? ptr).
+Proof. exact grow_down_refines. Qed.
+
 Print Assumptions C01_live_blocks.
 Print Assumptions C01_step_inv_partial.
 Print Assumptions C01_reachable_partial.
@@ -136,3 +170,7 @@ Print Assumptions C01_split_parts.
 Print Assumptions C01_histories_with_splits_keep_invariant.
 Print Assumptions C01_split_is_last.
 Print Assumptions C01_split_other_part_not_last.
+Print Assumptions C01_source_is_last_is_the_models.
+Print Assumptions C01_source_dealloc_position_is_the_models.
+Print Assumptions C01_source_grow_up_is_the_models.
+Print Assumptions C01_source_grow_down_is_the_models.
